@@ -56,12 +56,41 @@ class _Exit(Exception):
     pass
 
 
+RISKY_ATTRS: set = set()      # names of properties of the package whose body can raise (filled by the rule that knows the source)
+
+
+def risky_properties(modules) -> set:
+    """Attribute names that are properties (property / cached_property) of a class of the package and whose body contains a
+    `raise`, a division or a modulo outside any try: reading such an attribute is a point where the reader can fail."""
+    out = set()
+    for m in modules:
+        for c in m.classes().values():
+            for f in c.body:
+                if not isinstance(f, (ast.FunctionDef,)):
+                    continue
+                decos = {(d.attr if isinstance(d, ast.Attribute) else getattr(d, "id", None)) for d in f.decorator_list}
+                if not decos & {"property", "cached_property"}:
+                    continue
+                guarded = {id(x) for t in ast.walk(f) if isinstance(t, ast.Try) for b in t.body for x in ast.walk(b)}
+                for x in ast.walk(f):
+                    if id(x) in guarded:
+                        continue
+                    if isinstance(x, ast.Raise) or (isinstance(x, ast.BinOp) and isinstance(x.op, (ast.Div, ast.FloorDiv, ast.Mod))
+                                                    and not isinstance(x.left, ast.Constant)):
+                        out.add(f.name)
+                        break
+    return out
+
+
 def may_raise_expr(e) -> bool:
     """Conservative: calls, subscript loads, await/yield, division may raise; names, constants,
-    attribute loads, displays, boolean/compare operators on those do not."""
+    attribute loads, displays, boolean/compare operators on those do not - except the load of an attribute that is a property of
+    the package whose body can raise (RISKY_ATTRS)."""
     if e is None:
         return False
     for n in ast.walk(e):
+        if isinstance(n, ast.Attribute) and isinstance(n.ctx, ast.Load) and n.attr in RISKY_ATTRS:
+            return True
         if isinstance(n, ast.Call) and is_benign_call(n):
             continue
         if isinstance(n, (ast.Call, ast.Await, ast.Yield, ast.YieldFrom)):
